@@ -6,9 +6,11 @@
      numeral        one or more Unicode decimal digits, at most sys.get_int_max_str_digits() of them
      elem_spells e i   e = spaces ++ numeral ++ [marker] ++ spaces, i = value or value | 2^31, i < 2^32
      path_spells s abs idx   s = slashes ++ tokens joined by runs of slashes, first token "m" iff abs.
-   [parse] is the parser the property demands (every rejection is Bip32PathError); [parse_current] is
-   the parser as it is today, which lets int()'s ValueError escape (defect F5).  The child-key
-   function of DerivePath is abstract (a Section variable in the model, universally quantified here). *)
+   [parse] is Bip32PathParser.Parse: every rejection is Bip32PathError.  (Defect F5 -- int()'s ValueError
+   escaping for elements that pass str.isnumeric() but are no decimal numbers -- was repaired in /repo by
+   commit 751715b; the last section keeps the witness against the code BEFORE that fix, clearly labelled.)
+   The child-key function of DerivePath is abstract (a Section variable in the model, universally
+   quantified here). *)
 From Coq Require Import NArith ZArith List.
 From BU Require Import Base.Exn Base.Bytes Gen.Unicode Model.PyText Model.Bip32Path.
 From BU Require Import Lemmas.PyText Lemmas.UnicodeOk Lemmas.Bip32PathSpec.
@@ -79,17 +81,8 @@ Theorem raw_index_vs_hardened_marker : forall j m, j < 2 ^ 31 -> In m [39; 104; 
 Proof. exact Lemmas.Bip32Path.raw_vs_hardened. Qed.
 Print Assumptions raw_index_vs_hardened_marker.
 
-(* ---- F5: the current parser does NOT reject with the path error ----
-   Full-strength statement (false of the code as it is):
-     forall s e, parse_current s = Err e -> e = LibError Bip32PathError.
-   Witness "m/²": str.isnumeric() admits U+00B2, int() refuses it, the ValueError escapes. *)
-Theorem parse_rejects_with_path_error_refuted :
-  exists s, parse_current s = Err ValueError /\ parse s = Err (LibError Bip32PathError).
-Proof. exact Lemmas.Bip32Path.parse_current_refuted. Qed.
-Print Assumptions parse_rejects_with_path_error_refuted.
-
-(* the gap is exactly the set  isnumeric \ isdecimal  (decided over all 0x110000 code points through the
-   range tables), and it is not empty *)
+(* ---- why the parser needs more than str.isnumeric(): the set  isnumeric \ isdecimal  (decided over all
+        0x110000 code points through the range tables) is exactly what int() refuses, and it is not empty ---- *)
 Theorem isnumeric_not_int_nonempty :
   exists c, c < uc_code_space /\ cp_isnumeric c = true /\ py_int [c] = Err ValueError.
 Proof. exact Lemmas.UnicodeOk.isnumeric_not_int_nonempty. Qed.
@@ -100,33 +93,10 @@ Theorem isnumeric_int_gap_exact : forall c, cp_isnumeric c = true ->
 Proof. exact Lemmas.UnicodeOk.numeric_cp_int_iff. Qed.
 Print Assumptions isnumeric_int_gap_exact.
 
-(* the two parsers differ in nothing but that exception class *)
-Theorem parse_current_differs_only_in_f5 : forall s,
-  parse_current s = parse s \/ (parse_current s = Err ValueError /\ parse s = Err (LibError Bip32PathError)).
-Proof. exact Lemmas.Bip32Path.parse_current_vs_parse. Qed.
-Print Assumptions parse_current_differs_only_in_f5.
-
-(* what does hold today: on strings whose numeric characters are all decimal digits (e.g. ASCII) and
-   that are short enough for int(), the current parser is the demanded one *)
-Theorem parse_rejects_with_path_error_partial : forall s,
-  (forall c, In c s -> cp_isnumeric c = true -> cp_isdecimal c = true) ->
-  int_limit_ok (length s) = true ->
-  parse_current s = parse s /\ (forall e, parse_current s = Err e -> e = LibError Bip32PathError).
-Proof.
-  intros s H1 H2. pose proof (Lemmas.Bip32Path.parse_current_partial s H1 H2) as E. split; [exact E|].
-  rewrite E. exact (Lemmas.Bip32Path.parse_rejects_with_path_error s).
-Qed.
-Print Assumptions parse_rejects_with_path_error_partial.
-
-Example parse_rejects_partial_ex :   (* "m/-1" *)
-  let s := [109; 47; 45; 49] in
-  (forall c, In c s -> cp_isnumeric c = true -> cp_isdecimal c = true) /\ int_limit_ok (length s) = true /\
-  parse_current s = Err (LibError Bip32PathError).
-Proof.
-  split; [|split; vm_compute; reflexivity].
-  intros c [<-|[<-|[<-|[<-|[]]]]]; vm_compute; auto.
-Qed.
-Print Assumptions parse_rejects_partial_ex.
+(* such elements, and numerals beyond int()'s digit limit, are rejected with the path error: "m/²" *)
+Example parse_numeric_not_decimal_ex : parse [109; 47; 178] = Err (LibError Bip32PathError).
+Proof. vm_compute. reflexivity. Qed.
+Print Assumptions parse_numeric_not_decimal_ex.
 
 (* ---- Bip32KeyIndex ---- *)
 Theorem key_index_range : forall z i, key_index z = Ok i <-> (0 <= z < 2 ^ 32)%Z /\ i = Z.to_N z.
@@ -206,3 +176,18 @@ Theorem parent_unchanged : forall (key : Type) (depth : key -> N) (ckd : key -> 
   heap_derive key depth ckd h i p = (h', r) -> (j < length h)%nat -> nth_error h' j = nth_error h j.
 Proof. exact Lemmas.Bip32Path.heap_derive_unchanged. Qed.
 Print Assumptions parent_unchanged.
+
+(* ---- HISTORICAL (the code BEFORE fix 751715b, defect F5; nothing below describes the present code) ----
+   [parse_before_fix] let int()'s ValueError escape.  The full-strength statement
+     forall s e, parse_before_fix s = Err e -> e = LibError Bip32PathError
+   was false, witness "m/²"; and the two parsers differ in nothing but that exception class, which is
+   why the repair is confined to one try/except. *)
+Theorem parse_before_fix_rejects_with_path_error_refuted :
+  exists s, parse_before_fix s = Err ValueError /\ parse s = Err (LibError Bip32PathError).
+Proof. exact Lemmas.Bip32Path.parse_before_fix_refuted. Qed.
+Print Assumptions parse_before_fix_rejects_with_path_error_refuted.
+
+Theorem parse_before_fix_differs_only_in_f5 : forall s,
+  parse_before_fix s = parse s \/ (parse_before_fix s = Err ValueError /\ parse s = Err (LibError Bip32PathError)).
+Proof. exact Lemmas.Bip32Path.parse_before_fix_vs_parse. Qed.
+Print Assumptions parse_before_fix_differs_only_in_f5.
